@@ -511,3 +511,12 @@ Definition not_written (fp : list access) (l : loc) : Prop :=
 
 (** a plan for the example block [2; 3]: node 2's function sets var 0, node 3's updates var 1 *)
 Definition ex_plan : plan := [(2%nat, WFn, ASet 0%nat 3); (3%nat, WFn, AUpdate 1%nat 2)].
+
+(** named example states (so that the Examples are closed terms) *)
+Definition get_state (r : res state) : state := match r with Ok s => s | _ => init 0 end.
+Definition pass_state (r : M) : state := match r with Ok (t, _) => t | _ => init 0 end.
+Definition blk_state (r : res (state * option err * list nid)) : state :=
+  match r with Ok (t, _, _) => t | _ => init 0 end.
+Definition ex_pre : state := get_state ex_state.
+Definition ex_mid_s : state := match ex_mid with Ok (s, _) => s | _ => init 0 end.
+Definition w_pre : state := get_state w_state.
